@@ -32,6 +32,7 @@ def rules(ctx):
     c106(ctx)
     c107(ctx)
     c108(ctx)
+    c109(ctx)
 
 
 BUILDERS = {
@@ -854,3 +855,93 @@ def c108(ctx):
                         if "field:next_offset" in (_brief(g, rv["a"]) | _brief(g, rv["b"])):
                             found = True
         ctx.check(R, f, "prev-match", found, "prev picks the cached position whose next_offset equals the current offset", "prev no longer matches cached positions by next_offset == target")
+
+
+# ------------------------------------------------------------------------------------------------
+# C10.9 the SST cursor answers a seek from the index
+
+SSTC = "<sst::SstCursor as sst::Cursor>::"
+ORD_CALL = re.compile(r"::(lt|le|gt|ge)$")
+
+
+def _ord_atoms(g, key_is):
+    """Comparisons in g between the sought key and an index entry's key: [(relation as `entry REL key`, uses idx-1, point)]."""
+    out = []
+    for b, t in g.calls():
+        m = ORD_CALL.search(callee_skey(t) or "")
+        if not m or len(t["args"]) != 2:
+            continue
+        name = m.group(1)
+        sides = []
+        for a in t["args"]:
+            srcs, _ = P.value_slice(g, a)
+            is_key = key_is(g, a)
+            fields = {x["f"] for x in srcs if x["k"] == "field"}
+            is_entry = "index_entries" in fields or ("key" in fields and not is_key)
+            prev = any(x["k"] == "bin" and x["op"].startswith("Sub") for x in srcs)
+            sides.append((is_key and not is_entry, is_entry, prev))
+        (k0, e0, p0), (k1, e1, p1) = sides
+        if e0 and k1:
+            out.append((name, p0, P.term_pt(g, b.idx)))
+        elif k0 and e1:
+            out.append(({"lt": "gt", "le": "ge", "gt": "lt", "ge": "le"}[name], p1, P.term_pt(g, b.idx)))
+    return out
+
+
+def c109(ctx):
+    R = "C10.9"
+    ctx.declare(R, "SstCursor::seek chooses the data block by the index search (first dividing key >= the sought key); a shortcut that keeps the "
+                   "current block must exclude the previous block's dividing key, which can be the last key that block stores")
+    si = ctx.fn(R, "sst::SstCursor::seek_index")
+    if si:
+        cl = [g for g in ctx.prog.fns.values() if g.skey.startswith("sst::SstCursor::seek_index::{closure")]
+        ok = False
+        for g in cl:
+            for name, _prev, _pt in _ord_atoms(g, lambda g_, a: not any(x["k"] == "field" and x["f"] == "key" for x in P.value_slice(g_, a)[0])):
+                ok = ok or name == "lt"
+        ctx.check(R, si, "index-search-strict", ok, "seek_index is the partition point of `entry.key < key`: the first block whose dividing key is >= the key",
+                  "seek_index no longer finds the first block whose dividing key is >= the key")
+    f = ctx.fn(R, SSTC + "seek")
+    if not f:
+        return
+    sx = ctx.calls(R, f, r"sst::SstCursor::seek_index$")
+    stl = P.call_points(f, r"SstCursor as sst::Cursor>::seek_to_last$")
+    lb = ctx.calls(R, f, r"sst::SstCursor::load_block_cursor$")
+    for p_ in lb:
+        t = P.term_at(f, p_)
+        from_index = any(x["k"] == "call" and x["callee"].endswith("seek_index") for x in P.value_slice(f, t["args"][1])[0])
+        ctx.check(R, f, "loads-the-indexed-block", from_index, "the block loaded is the one the index search chose (or its successor)",
+                  "seek loads a block whose number does not come from the index search", pt=p_)
+    mw = P.field_writes(f, r"sst::SstCursor$", "meta_idx")
+    for p_ in mw:
+        st = f.blocks[p_[0]].st[p_[1]] if p_[1] < len(f.blocks[p_[0]].st) else None
+        from_index = st is not None and any(x["k"] == "call" and x["callee"].endswith("seek_index") for x in P.value_slice(f, st["rv"].get("a"))[0])
+        ctx.check(R, f, "records-the-indexed-block", from_index, "meta_idx is the number of the block loaded", "seek stores a meta_idx that does not come from the index search", pt=p_)
+
+    def key_is(g_, a):
+        return any(x["k"] == "param" and g_.locals[x["i"]] == "&[u8]" for x in P.origins(g_, a))
+    # returns that do not pass the index search: a same-block shortcut
+    for r_ in P.ok_points(f):
+        q = P.reach(f, P.ENTRY, [r_], avoid=set(sx))
+        if q is None:
+            ctx.ok(R, f, "this exit follows the index search", [r_])
+            continue
+        atoms = []
+        for bb, lab, srcs in K.guards(f, r_):
+            for s_ in srcs:
+                if s_["k"] == "call":
+                    for k_ in ctx.prog.targets(s_["t"]):
+                        g = ctx.prog.fns.get(k_)
+                        if g is not None and g.crate == "sst":
+                            atoms += _ord_atoms(g, key_is)
+        atoms += _ord_atoms(f, key_is)
+        lower = [a for a in atoms if a[1]]
+        upper = [a for a in atoms if not a[1]]
+        ok_lower = bool(lower) and all(a[0] == "lt" for a in lower)
+        ok_upper = bool(upper) and all(a[0] in ("ge", "gt") for a in upper)
+        ctx.check(R, f, "shortcut-excludes-previous-divider", ok_lower and ok_upper,
+                  "the same-block shortcut requires entries[idx - 1].key < key <= entries[idx].key",
+                  "seek can answer from the block it already holds without the index search, and the test that the block covers the key does not "
+                  "exclude the previous block's dividing key (found %s): divide_keys may return the previous block's last stored key itself, so a "
+                  "re-seek to that key lands on this block's first entry and skips the key" % sorted((a[0], "idx-1" if a[1] else "idx") for a in atoms),
+                  pt=r_, path=q)
